@@ -490,6 +490,7 @@ func genCrash(c *Case, r *simrt.Rand, tier string) {
 	cfg.drainW = 14
 	cfg.kids = 0.3
 	cfg.partial = 0.3
+	cfg.longHist = 0.02
 	genSingle(c, r, cfg)
 	c.Opts.KeepFiles = false
 	c.Flags["tier-"+tier] = true
